@@ -11,6 +11,7 @@
    races on non-atomic reads — is decided by running every driver of the other properties, the serial / parallel / multi-rank
    / LP-level / cooperatively scheduled simulations included, under AddressSanitizer + UndefinedBehaviorSanitizer. *)
 From Coq Require Import NArith ZArith List.
+From RS Require Import TW.App TW.Worker TW.WorkerOnceApp.
 From RS Require Import Rng.RngDefs Rng.RngProofs TW.Flags Buddy.BuddyTree Buddy.Alloc Buddy.AllocProofs Part.PartitionDefs Part.PartitionProofs.
 
 Theorem C11_random_shifts_defined : forall u, (u < W64)%N -> exists b, random_bits u = Some b.
@@ -37,6 +38,15 @@ Theorem C11_partition_loops_bounded : forall cnt tot, (0 < cnt)%N -> (0 < tot)%N
   partition_start id cnt start tot = Some (start + first cnt tot id)%N.
 Proof. exact partition_start_spec. Qed.
 
+(* process.c / fossil.c: the index loops stay inside the history and the checkpoint log.  The worker model raises its error
+   flag exactly where match_anti_msg would walk below index 0, model_allocator_checkpoint_restore / fossil would find no
+   checkpoint at or below the target, or a destination would index outside the LP array; for every program with types below
+   the reserved ones, every checkpoint interval and every script it is never raised. *)
+Theorem C11_history_and_log_indices_stay_in_bounds : forall (p : prog) (ck : nat), types_okb p = true ->
+  forall (ops : list wop), k_err (fold_left (wstep p ck) ops (w_init p)) = false.
+Proof. exact worker_never_errs. Qed.
+
+Print Assumptions C11_history_and_log_indices_stay_in_bounds.
 Print Assumptions C11_random_shifts_defined.
 Print Assumptions C11_unsplit_shift_undefined_at_one.
 Print Assumptions C11_no_use_of_released_buffer.
